@@ -74,16 +74,19 @@ def lastReceived (strict : Bool) (r : Run σ ε) : Bool :=
   | none => true
   | some s => s.srcOk strict && !s.out.lost
 
-/-- Excluded by finding `unimplemented_event`: fairmq.go implements the event. -/
+/-- fairmq.go implements the event (GO_ERROR and RECOVER it answers itself, without asking the device).
+    Hypothesis of the theorems that also cover the code as it was before the repair of finding
+    `unimplemented_event`; the code as it is needs no such hypothesis (`C16_success_code`). -/
 def implemented : O2Event → Bool
   | .GO_ERROR | .RECOVER => false
   | _ => true
 
-/-- Which excluded hypothesis a call violates (`-` = none): the `hyp` column of the line protocol. -/
-def hypOf (fmq strict : Bool) (evt : O2Event) (r : Run σ ε) : String :=
+/-- Which excluded hypothesis a call violates (`-` = none): the `hyp` column of the line protocol.
+    Only the classes that are still open are named: a GO_ERROR / RECOVER answered with `err = nil`
+    (former class `unimplemented_event`, repaired) is a plain violation. -/
+def hypOf (strict : Bool) (r : Run σ ε) : String :=
   if !noStale strict r then "stale_src_request"
   else if !noLoss strict r then "lost_reply"
-  else if fmq && !implemented evt then "unimplemented_event"
   else "-"
 
 /-- `""` for "no O² name". -/
